@@ -41,6 +41,19 @@ class MaybeConstantView {
   constexpr ValueT UncheckedRead() const { return value_.ValueOrDefault(); }
   constexpr bool Ok() const { return value_.Known(); }
 
+  // Equals and UncheckedEquals are used by the generated Equals and
+  // UncheckedEquals methods of parameterized structures, which compare
+  // parameters as if they were fields.
+  template <typename OtherValueT>
+  constexpr bool Equals(const MaybeConstantView<OtherValueT> &other) const {
+    return Read() == other.Read();
+  }
+  template <typename OtherValueT>
+  constexpr bool UncheckedEquals(
+      const MaybeConstantView<OtherValueT> &other) const {
+    return UncheckedRead() == other.UncheckedRead();
+  }
+
  private:
   ::emboss::support::Maybe<ValueT> value_;
 };
